@@ -8,11 +8,20 @@ mkdir -p "$SR/evidence" "$SR/replays"
 cp properties.jsonl known_findings.json "$SR/"; rm -rf "$SR/known_findings.d"; cp -r known_findings.d "$SR/"
 . tools/scale.sh
 PROPS=${SWEEP_PROPS:-"C01 C02 C03 C04 C05 C06 C07 C08 C09 C10 C11 C12 C13 C14 C15 C16 C17 C18 C19 C20"}
+# the workspace needs harness/spbin/src/main.rs (generated copy of the shipped server binary's source)
+mkdir -p harness/spbin/src; cmp -s /repo/src/bin/server_persistent.rs harness/spbin/src/main.rs || cp /repo/src/bin/server_persistent.rs harness/spbin/src/main.rs
 for seed in "$@"; do
   for p in $PROPS; do
     pkg=$(echo "$p" | tr 'A-Z' 'a-z'); start=$(date +%s)
     ( cd harness && cargo build --release -p "$pkg" >/dev/null 2>&1 )
     VERIF_ROOT="$SR" VERIF_SCALE=$(quick_scale "$p") timeout -s KILL 3600 harness/target/release/$pkg --tier quick --seed "$seed" > .work/sweep-$p-$seed.log 2>&1; rc=$?
+    # process-level tier for the properties it serves (scratch root, its own evidence dir)
+    case "$p" in C04|C08|C09|C11|C15)
+      if [ $rc -eq 0 ]; then
+        ( cd harness && cargo build --release -p spbin -p e2e >/dev/null 2>&1 )
+        VERIF_ROOT="$SR" VERIF_EVIDENCE_DIR="$SR/e2e-evidence" VERIF_SCALE=${SWEEP_E2E_SCALE:-100} timeout -s KILL 3600 harness/target/release/e2e --property "$p" --tier quick --seed "$seed" >> .work/sweep-$p-$seed.log 2>&1; rc=$?
+      fi ;;
+    esac
     echo "seed=$seed $p rc=$rc viol=$(grep -c ^VIOLATION .work/sweep-$p-$seed.log) $(( $(date +%s) - start ))s"
   done
 done
